@@ -1,5 +1,5 @@
 use crate::{oracle, oracle::Mode, Failure, Rng};
-use temporal_rs::options::{RoundingMode, RoundingOptions, RoundingIncrement, Unit};
+use temporal_rs::options::{DifferenceSettings, RoundingMode, RoundingOptions, RoundingIncrement, Unit};
 use temporal_rs::{Instant, PlainTime};
 use std::panic::catch_unwind;
 
@@ -65,6 +65,30 @@ fn check_instant(ns: i128, unit: (Unit, i128, u32), inc: u32, mode: Mode, fails:
     }
 }
 
+/// PlainTime until / since with a smallest unit, increment and mode (C07 last sentence): until rounds other - this with the
+/// mode, since rounds this - other with it (the mode is applied as if negated to the negated difference)
+fn check_time_diff(a: i128, b: i128, unit: (Unit, i128, u32), inc: u32, mode: Mode, fails: &mut Vec<Failure>) {
+    let (ta, tb) = (time_of(a), time_of(b));
+    let step = unit.1 * inc as i128;
+    for since in [false, true] {
+        let expected = if since { oracle::round(a - b, step, mode) } else { oracle::round(b - a, step, mode) };
+        let mut o = DifferenceSettings::default();
+        o.smallest_unit = Some(unit.0);
+        o.rounding_mode = Some(to_mode(mode));
+        o.increment = RoundingIncrement::try_new(inc).ok();
+        let r = catch_unwind(|| if since { ta.since(&tb, o) } else { ta.until(&tb, o) });
+        let input = format!("PlainTime(ns={a}).{}(PlainTime(ns={b})) unit={:?} increment={inc} mode={:?}", if since { "since" } else { "until" }, unit.0, mode);
+        match r {
+            Ok(Ok(d)) => {
+                let got = ((((d.hours().as_inner() as i128 * 60 + d.minutes().as_inner() as i128) * 60 + d.seconds().as_inner() as i128) * 1000 + d.milliseconds().as_inner() as i128) * 1000 + d.microseconds().as_inner() as i128) * 1000 + d.nanoseconds().as_inner() as i128;
+                if got != expected { fails.push(Failure { what: "PlainTime until/since rounding".into(), input, expected: format!("{expected}"), observed: format!("{got}") }); }
+            }
+            Ok(Err(e)) => fails.push(Failure { what: "PlainTime until/since failed".into(), input, expected: format!("{expected}"), observed: format!("{e:?}") }),
+            Err(_) => fails.push(Failure { what: "PlainTime until/since panicked".into(), input, expected: format!("{expected}"), observed: "panic".into() }),
+        }
+    }
+}
+
 fn divisors(max: u32) -> Vec<u32> { (1..max).filter(|d| max % d == 0).collect() }
 
 pub fn search(rng: &mut Rng, budget: u64, fails: &mut Vec<Failure>) {
@@ -77,6 +101,7 @@ pub fn search(rng: &mut Rng, budget: u64, fails: &mut Vec<Failure>) {
                     for off in [0, 1, step / 2 - 1, step / 2, step / 2 + 1, step - 1] {
                         let ns = base + off;
                         if ns >= 0 && ns < NS_DAY { check_time(ns, unit, inc, mode, fails); }
+                        if ns >= 0 && ns < NS_DAY && base == 7 * step { check_time_diff(3 * step, ns, unit, inc, mode, fails); check_time_diff(ns, 3 * step, unit, inc, mode, fails); }
                         if fails.len() >= 5 { return; }
                     }
                 }
@@ -90,6 +115,7 @@ pub fn search(rng: &mut Rng, budget: u64, fails: &mut Vec<Failure>) {
         let mode = rng.pick(&oracle::MODES);
         let ns = rng.range(0, NS_DAY - 1);
         check_time(ns, unit, inc, mode, fails);
+        check_time_diff(ns, rng.range(0, NS_DAY - 1), unit, inc, mode, fails);
         let ens = rng.range(-8_640_000_000_000_000_000_000, 8_640_000_000_000_000_000_000);
         // instants: increment must divide the day length
         let day_units = NS_DAY / unit.1;
